@@ -65,7 +65,7 @@ def make_workspace(rng):
                 break
         ws[name] = impl.accessor(live or [[0, 1, 2, 3]] * 16)
     ws["M1"] = numpy.array([rng.randrange(2) for _ in range(rng.choice([6, 9, 16]))], dtype=int)
-    ws["M2"] = numpy.array([rng.randrange(2) for _ in range(rng.choice([0, 1, 12]))], dtype=int)
+    ws["M2"] = numpy.array([1] + [rng.randrange(2) for _ in range(rng.choice([0, 11, 69, 69]))], dtype=int)[rng.choice([0, 1]):]
     ws["T1"] = numpy.array(cf.random_table(rng, 16), dtype=int)
     ws["K1"] = numpy.array([rng.random() < 0.8 for _ in range(16)])
     ws["L1"] = dsw.accessor_to_latter_map(ws["A1"])
@@ -80,11 +80,11 @@ def start_of(acc):
     return int(vs[0]) if len(vs) else 0
 
 
-def strand_for(msg, acc, table=None):
+def strand_for(msg, acc, table=None, start=None):
     """A strand derived from the message (computed on copies, not part of the log)."""
     try:
         kw = {"shuffles": table.copy()} if table is not None else {}
-        s = dsw.encode(msg.copy(), acc.copy(), start_of(acc), **kw)
+        s = dsw.encode(msg.copy(), acc.copy(), start_of(acc) if start is None else start, **kw)
         return s if len(s) >= 2 else "ACGTAC"
     except BaseException:  # noqa
         return "ACGTAC"
@@ -101,16 +101,18 @@ def invoke(fn, param, a, verbose, seed_rng=True):
     """Perform one API call. `a` = list of argument objects in the order of Library.tla's `args`."""
     vb = {"verbose": True} if verbose else {}
     if fn == "encode":
-        m, acc, t = a
+        m, acc, t = a[:3]
+        st = a[3] if len(a) > 3 else start_of(acc)
         kw = dict(is_faster=(param == "fast"), vt_length=3 if param == "normal+vt" else 0, need_path=(param == "normal+path"))
-        return dsw.encode(m, acc, start_of(acc), shuffles=t, **kw, **vb)
+        return dsw.encode(m, acc, st, shuffles=t, **kw, **vb)
     if fn == "decode":
-        m, acc, t = a
-        s = strand_for(m, acc, t)
+        m, acc, t = a[:3]
+        st = a[3] if len(a) > 3 else start_of(acc)
+        s = strand_for(m, acc, t, st)
         kw = dict(is_faster=(param == "fast"))
         if param == "normal+vt":
             kw["vt_check"] = dsw.set_vt(s, 3)
-        return dsw.decode(s, len(m), acc, start_of(acc), shuffles=t, **kw, **vb)
+        return dsw.decode(s, len(m), acc, st, shuffles=t, **kw, **vb)
     if fn == "set_vt":
         m, acc = a
         return dsw.set_vt(strand_for(m, acc), 3 if param == "n=3" else 40)
@@ -191,8 +193,26 @@ def guarded(fn, param, args, verbose):
     return r
 
 
+HOT = {}
+
+
 def run_event(ws, e):
     args = [ws[s] for s in e["slots"]]
+    if e["fn"] == "remove_nasty_arc":
+        # learn on copies which arc will go, and use its source vertex once on the real object before the edit (an ordinary earlier
+        # call of the session) and as start vertex afterwards
+        acc, lm = args
+        pr = impl.call(dsw.remove_nasty_arc, acc.copy(), copy.deepcopy(lm), has_insertion=("ins" in e["param"]), has_deletion=True)
+        if pr["out"] == "ok":
+            former = int(pr["value"][2][0])
+            impl.call(dsw.encode, ws["M1"].copy(), acc, former)
+            impl.call(lambda: dsw.decode(strand_for(ws["M1"], acc, None, former), len(ws["M1"]), acc, former))
+            HOT[id(acc)] = former
+    if e["fn"] in ("encode", "decode"):
+        acc = args[1]
+        st = HOT.get(id(acc))
+        if st is not None and (acc[st] >= 0).any():
+            args = args + [st]
     before = [digest(ws[s]) for s in SLOTS]
     sig = json.dumps([e["fn"], e["param"], [digest(x) for x in args]])
     pick = pickle.dumps((e["fn"], e["param"], args))
